@@ -76,7 +76,7 @@ var mustReject = []string{
 	":conv ThreeRet Name", ":conv TwoRetNoErr Name", ":conv ext.NoSuch Name", ":conv ext.hidden Name", ":conv nopkg.F Name",
 	":style", ":style foo", ":match", ":match x", ":recv", ":recv 1x", ":recv r-x", ":skip", ":skip /[/", ":skip /(/", ":map", ":map Name",
 	":conv", ":conv Good", ":literal", ":literal Name", ":preprocess", ":postprocess", ":reverse",
-	":conv v2.Norm Name", ":recv func", ":recv range", ":literal Name )(", ":literal Name \"oops", ":literal Name \"a\" +",
+	":conv v2.Norm Name", ":conv TypedErr Name", ":preprocess HookTypedErr", ":postprocess HookTypedErr", ":recv func", ":recv range", ":literal Name )(", ":literal Name \"oops", ":literal Name \"a\" +",
 }
 
 var mustAccept = []string{
@@ -110,7 +110,7 @@ func C14BadNotation() {
 	slot("N2", focus <= 1)
 	m1 := slot("M1", focus <= 1)
 	h1, h2, h3 := slot("H1", focus == 2), slot("H2", focus == 2), slot("H3", focus == 3)
-	rejected := badHarness("bad", 6)
+	rejected := badHarness("bad", 7)
 	// a hook that returns an error cannot fit a method without error result (Other has none)
 	if n1 == "" && i1 == "" && h1 == "" && h2 == "" && h3 == "" && (m1 == ":preprocess HookGood" || m1 == ":postprocess HookGood") {
 		vrt.AssertMsg("error-returning-hook-on-a-method-without-error-rejected", rejected, m1)
@@ -218,5 +218,28 @@ func C13BlankImport() {
 		vrt.AssertMsg("converter-of-the-named-import-used", strings.Contains(all, "dst.Name = lib.Norm(src.Name)"), all)
 		vrt.AssertMsg("converter-of-the-blank-import-used", strings.Contains(all, "dst.Name = cryp.Up(src.Name)"), all)
 	}
+	vrt.Reach("end")
+}
+
+// C03DotImport: a setup file that dot-imports a helper package names its functions bare in a
+// notation (there is no other spelling), and one that imports a package under another name uses
+// that name: both are accepted, the emitted calls are spelled the way the setup file can write
+// them (the type checker is the judge), converters and hook are in use.
+func C03DotImport() {
+	var texts []string
+	var err error
+	stderr := vrt.CaptureStderr(func() { texts, err = frontHalf("dot") })
+	vrt.SlotText("dot", "S1")
+	vrt.AssertMsg("well-formed-file-accepted", err == nil && len(texts) == 3, stderr)
+	if err != nil || len(texts) != 3 {
+		return
+	}
+	all := texts[0] + texts[1] + texts[2]
+	vrt.AssertMsg("converter-of-the-dot-import-used", strings.Contains(all, "dst.Name = Norm(src.Name)"), all)
+	vrt.AssertMsg("local-converter-used", strings.Contains(all, "dst.Name = Local(src.Name)"), all)
+	vrt.AssertMsg("converter-of-the-renamed-import-used", strings.Contains(all, "dst.Name = pets.Norm(src.Name)"), all)
+	vrt.AssertMsg("hook-of-the-renamed-import-called", strings.Contains(all, "pets.PostPet(dst, src)"), all)
+	v := vrt.TypeCheckFuncs("dot", all)
+	vrt.AssertMsg("emitted-functions-type-check", v == "", v)
 	vrt.Reach("end")
 }
